@@ -2,4 +2,5 @@ SPECIFICATION TSpec
 INVARIANT Report
 INVARIANT Stuck
 CONSTANT CheckPattern = FALSE
+CONSTANT CheckText = FALSE
 CHECK_DEADLOCK FALSE
